@@ -207,6 +207,24 @@ theorem cost_lower (P : Problem) (cl : List (Con × Rat)) (x y : Nat → Rat)
     sumTo_nonneg (fun i hi => mul_nonneg (hw i hi) (mul_self_nonneg _))
   linarith
 
+/-- exact form of `cost_lower`: under stationarity at `x`,
+    `cost y = cost x + Σ_c λ_c (slack_c y - slack_c x) + Σ_i w_i (y_i - x_i)^2`. -/
+theorem cost_exact (P : Problem) (cl : List (Con × Rat)) (x y : Nat → Rat)
+    (hb : ∀ p ∈ cl, p.1.l < P.n ∧ p.1.r < P.n)
+    (hstat : ∀ i, i < P.n → 2 * P.w i * (x i - P.d i) = conGrad P.s cl i) :
+    cost P y = cost P x + listSum (fun p => p.2 * (slack P.s p.1 y - slack P.s p.1 x)) cl
+      + sumTo P.n (fun i => P.w i * ((y i - x i) * (y i - x i))) := by
+  rw [cost_expand P x y]
+  have h1 : sumTo P.n (fun i => (2 * P.w i * (x i - P.d i)) * (y i - x i)) =
+      listSum (fun p => p.2 * (slack P.s p.1 y - slack P.s p.1 x)) cl := by
+    rw [sumTo_congr (g := fun i => conGrad P.s cl i * (y i - x i))
+      (fun i hi => by rw [hstat i hi])]
+    rw [sum_conGrad P.s P.n (fun i => y i - x i) cl hb]
+    congr 1
+    funext p
+    rw [slack_diff]
+  rw [h1]
+
 /-- cost at the midpoint: strict convexity identity -/
 theorem cost_midpoint (P : Problem) (x y : Nat → Rat) :
     cost P (fun i => (x i + y i) / 2) =
